@@ -190,6 +190,24 @@ fn blocking_oracle(p: &ProgInfo, tag: &str, sigp: &str, inputs: &[Vec<Vec<u64>>]
                 }
                 expect(exp, rec);
             }
+            "cross_join" => {
+                // set semantics on both sides (a join on the unit key)
+                let l = if is_static(w[1]) { &cum0 } else { i0 };
+                let r = if is_static(w[2]) { &cum1 } else { &i1 };
+                let mut ls: Vec<u64> = l.clone();
+                ls.sort();
+                ls.dedup();
+                let mut rs: Vec<u64> = r.clone();
+                rs.sort();
+                rs.dedup();
+                let mut exp = vec![];
+                for a in &ls {
+                    for b in &rs {
+                        exp.push(format!("({a},{b})"));
+                    }
+                }
+                expect(exp, rec);
+            }
             "cross_join_multiset" => {
                 let l = if is_static(w[1]) { &cum0 } else { i0 };
                 let r = if is_static(w[2]) { &cum1 } else { &i1 };
@@ -204,6 +222,17 @@ fn blocking_oracle(p: &ProgInfo, tag: &str, sigp: &str, inputs: &[Vec<Vec<u64>>]
             "zip" => {
                 if !is_static(w[1]) && !is_static(w[2]) {
                     rec.check(got.len() == i0.len().min(i1.len()), &sig, &format!("prog={} tick={} zip length {} vs {}", p.name, t, got.len(), i0.len().min(i1.len())));
+                    // the pass-through stages may permute a stream, never change its multiset: the left
+                    // components are items of port 0's source, the right components of port 1's source
+                    let side = |k: usize| -> Option<Vec<u64>> {
+                        got.iter().map(|s| s.trim_matches(|c| c == '(' || c == ')').split(',').nth(k).and_then(|x| x.parse().ok())).collect()
+                    };
+                    let sub = |xs: &Vec<u64>, of: &Vec<u64>| counts(xs).iter().all(|(x, c)| counts(of).get(x).copied().unwrap_or(0) >= *c);
+                    let ok = match (side(0), side(1)) {
+                        (Some(a), Some(b)) => sub(&a, i0) && sub(&b, &i1),
+                        _ => false,
+                    };
+                    rec.check(ok, &sig, &format!("prog={} tick={} zip pairs {} are not (item of input 0, item of input 1) of {}", p.name, t, show_stream(&got, true), show_inputs(inputs, t).replace('|', " / ")));
                 }
             }
             _ => {}
@@ -344,6 +373,28 @@ fn run_case(no: u64, p: &ProgInfo, inputs: &[Vec<Vec<u64>>], mode: &str, rec: &m
         }
     }
     rec.count(&format!("kind:{}", p.kind));
+    if p.kind == "blocking" {
+        // which input ports of the blocking operator (the node of the last sink) are fed directly by a
+        // unary union()/tee() (spliced out by eliminate_extra_unions_tees)
+        let nodes: Vec<Vec<&str>> = p.desc.lines().filter(|l| l.starts_with("node ")).map(|l| l.split(' ').collect()).collect();
+        let last_sink_node = p.desc.lines().filter(|l| l.starts_with("sink ")).last().and_then(|l| l.split(' ').nth(2)).and_then(|r| r.split('.').next()).unwrap_or("");
+        if let Some(op) = nodes.iter().find(|w| w[1] == last_sink_node) {
+            let arrow = op.iter().position(|x| *x == "<-").unwrap_or(op.len());
+            let mut any = false;
+            for (k, r) in op[(arrow + 1).min(op.len())..].iter().enumerate() {
+                let id = r.split('.').next().unwrap_or("");
+                if let Some(pn) = nodes.iter().find(|w| w[1] == id) {
+                    if (pn[2] == "tee" || pn[2] == "union") && pn[3] == "1" {
+                        rec.count(&format!("unary-{}-at-port:{}:{}", pn[2], op[2], k));
+                        any = true;
+                    }
+                }
+            }
+            if any {
+                rec.count("blocking-port-behind-unary-union-or-tee");
+            }
+        }
+    }
     rec.count(&format!("ticks:{ticks}"));
     if nonempty > 0 {
         rec.nontrivial();
@@ -358,6 +409,13 @@ fn run_case(no: u64, p: &ProgInfo, inputs: &[Vec<Vec<u64>>], mode: &str, rec: &m
             let same = (0..cut).all(|t| show_outputs(&po[t], &modes) == show_outputs(&outs[t], &modes));
             rec.check(same, "tick-output-depends-on-later-input", &format!("prog={}", p.name));
         }
+    }
+    // (a') every operator input port is fed by the producer the program text connects to it (the
+    // partitioned graph of the real dfir_lang pipeline, computed when the corpus was built)
+    let opname = |w: &str| w.split('`').nth(1).and_then(|d| d.split(' ').next()).unwrap_or("?").to_string();
+    rec.check(p.wiring.is_empty(), &format!("input-port-miswired@{}", opname(p.wiring)), &format!("prog={} {}", p.name, p.wiring));
+    if with_variant {
+        rec.check(p.vwiring.is_empty(), &format!("variant-input-port-miswired@{}", opname(p.vwiring)), &format!("prog={} {} perturb={}", p.name, p.vwiring, p.perturb.replace('\n', " / ")));
     }
     // (b) the blocking operator's documented result from the raw inputs (C23 corpus)
     if p.kind == "blocking" {
